@@ -1033,7 +1033,7 @@ class Engine:
             return v
         if isinstance(v, MaybeNone):
             return MaybeNone(fresh(name + '.isnone', Bo), self.havoc_value(st, v.value, name))
-        if v is None or isinstance(v, (str, Obj)):
+        if v is None or isinstance(v, (str, Obj, Func, Module)):
             return v
         if isinstance(v, Coll):
             n = fresh(name + '.size', I)
@@ -1973,25 +1973,41 @@ class Engine:
                 if keep:
                     out.append(self.ev(n.elt, st))
             return st.new_ref(ListC(out), 'listcomp')
-        if g.ifs:
-            raise Unsupported('filtered comprehension over a symbolic sequence')
-        sv = self.ev(g.iter, st)
-        if not (isinstance(sv, Ref) and isinstance(st.content(sv), (SeqC, ArrC))):
-            raise Unsupported('comprehension over %r' % (sv,))
-        c = st.content(sv)
         k = fresh('ck', I)
+        if isinstance(g.iter, ast.Call) and ast.unparse(g.iter.func) == 'range' and len(g.iter.args) == 1 and not g.iter.keywords:
+            class _Range:        # range(n): element k is k
+                pass
+            c = _Range()
+            c.n = to_z3(self.ev(g.iter.args[0], st))
+            elem_k = k
+        else:
+            sv = self.ev(g.iter, st)
+            if isinstance(sv, MaybeNone):
+                self.oblige(st, 'iterated-value-is-not-None[%s]' % ast.unparse(g.iter), z3.Not(sv.isnone), {})
+                sv = sv.value
+            if not (isinstance(sv, Ref) and isinstance(st.content(sv), (SeqC, ArrC))):
+                raise Unsupported('comprehension over %r' % (sv,))
+            c = st.content(sv)
+            elem_k = None
         saved_env = dict(st.env)
         prev = getattr(st, 'in_comprehension', None)
         st.in_comprehension = (k, c.n)
         st.comp_raises = getattr(st, 'comp_raises', [])
         st.pc.append(z3.And(k >= 0, k < c.n))      # obligations raised for element k carry its range
+        keep = None
         try:
-            self.assign(g.target, self.elem(c, k), st)
+            self.assign(g.target, self.elem(c, k) if elem_k is None else elem_k, st)
+            if g.ifs:
+                keep = zand(*[zb(self.truth(self.ev(cond, st), st)) for cond in g.ifs])
             v = self.ev(n.elt, st)
         finally:
             st.pc.pop()
             st.in_comprehension = prev
             st.env = saved_env
+        if keep is not None:
+            from .symval import FiltC
+            ev_ = v.val if isinstance(v, NR) else to_z3(v)
+            return st.new_ref(FiltC(c.n, z3.Lambda([k], ev_), z3.Lambda([k], zb(keep))), 'filtered-listcomp')
         if isinstance(v, NR):
             return st.new_ref(SeqC(z3.Lambda([k], v.val), c.n, None if v.nan is False else z3.Lambda([k], v.nanz())), 'listcomp')
         return st.new_ref(SeqC(z3.Lambda([k], to_z3(v)), c.n, None), 'listcomp')
